@@ -50,6 +50,7 @@ def registry():
     ok = 'spec.keys.dsa_key_ok(%s, %s, %s, %s, %s)' % (t_(0), t_(1), t_(2), t_(3), xval)
     reg.add(Contract(D + 'construct', params={'tup': 'tuple(int,int,int,int)|tuple(int,int,int,int,int)|tuple(%s,%s,%s,%s,%s)' % ((OINT,) * 5),
                                               'consistency_check': ('const', True)},
+                     requires=['all(isinstance(x, int) or isinstance(x, Integer) for x in tup)'],       # documented: a tuple of integers
                      raises={'ValueError': ('iff', 'not %s' % ok)}, result=ODKEY,
                      ensures={'comps': ' and '.join('result._key["%s"]._value == %s' % (c, t_(i)) for i, c in enumerate('ygpq')),
                               'private': '("x" in result._key) == (len(tup) == 5)', 'x': 'len(tup) == 5 ==> result._key["x"]._value == %s' % t_(4)},
@@ -65,11 +66,38 @@ def registry():
     return reg
 
 
+def cascade_registry():
+    """C13: the DER import cascade of DSA (see key_rsa.cascade_registry).  DerSequence().decode(...) without nr_elements is case
+    split on the member count because `_import_subjectPublicKeyInfo` / `_import_pkcs8` unpack the parameters into (p, q, g)."""
+    from . import pkcs8
+    from .key_common import install_integer
+    reg = pkcs8.registry()
+    pkcs8.install_der_weak(reg, fork_counts=True)
+    install_integer(reg)
+    pkcs8.install_container_models(reg)
+    add_dsakey_class(reg)
+    full = registry()
+    reg.add(full.contracts[D + 'construct'])
+    only_ve = {'ValueError': ('only_if', 'True')}
+    PAR = 'bytes|none'
+    for f in ('_import_openssl_private', '_import_subjectPublicKeyInfo', '_import_x509_cert', '_import_pkcs8'):
+        reg.add(Contract(D + f, params={'encoded': 'bytes', 'passphrase': 'bytes|none', 'params': PAR}, raises=dict(only_ve), result=ODKEY,
+                         modifies=[], ensures={'key': 'isinstance(result, DsaKey)'}))
+    reg.add(Contract(D + '_import_key_der', params={'key_data': 'bytes', 'passphrase': 'bytes|none', 'params': PAR}, raises=dict(only_ve),
+                     result=ODKEY, modifies=[], ensures={'key': 'isinstance(result, DsaKey)'}))
+    return reg
+
+
+CASCADE = ['_import_openssl_private', '_import_subjectPublicKeyInfo', '_import_x509_cert', '_import_pkcs8', '_import_key_der']
+
+
 def units(prop, tier):
     from vf.pyunit import pyvc_unit
     if prop == 'C08':
         return [pyvc_unit(prop, 'key.dsa.eq', registry, [DKEY + '.__eq__']),
                 pyvc_unit(prop, 'key.elgamal.eq', registry, [EKEY + '.__eq__'])]
+    if prop == 'C13':
+        return [pyvc_unit(prop, 'key.dsa.import_der', cascade_registry, [D + f for f in CASCADE])]
     if prop == 'C05':
         return [pyvc_unit(prop, 'key.dsa.construct', registry, [D + 'construct']),
                 pyvc_unit(prop, 'key.elgamal.construct', registry, [E + 'construct'])]
